@@ -703,22 +703,50 @@ func (w *vrWorld) unlock1(id types.FileContractID) {
 	delete(w.locked, id)
 }
 
+// vrRevBuffer is Manager.revisionSubmissionBuffer of a manager built without options (the model's rev_buffer).
+const vrRevBuffer = 144
+
+// confirmable: a revision of the contract accepted at the current tip can still be confirmed before its
+// proof window opens (isGoodForModification's height clause, recomputed here from the harness' own record
+// of the window; WP-G).
+func (w *vrWorld) confirmable(id types.FileContractID) bool {
+	c := w.v1[id]
+	return c == nil || w.chain.st.Index.Height+vrRevBuffer <= c.window
+}
+
+// lateAccepted: a revision the manager persisted although it can no longer be confirmed — the host's
+// storage proof will be built for a revision the chain never sees (C06's consequence clause).
+func (w *vrWorld) lateAccepted(what string, id types.FileContractID) {
+	c := w.v1[id]
+	w.hit("revision-accepted-after-last-confirmable-height", fmt.Sprintf("%s of contract %d accepted at height %d: window start %d, submission buffer %d",
+		what, w.cN(id), w.chain.st.Index.Height, c.window, vrRevBuffer))
+}
+
+// open1 calls Manager.ReviseContract; -1 when the manager refuses (unknown contract, or — since
+// fixes/C06-revise-guard-at-commit.patch — a contract that can no longer be revised).
 func (w *vrWorld) open1(id types.FileContractID) int {
-	u, err := w.cm.ReviseContract(id)
-	if err != nil {
-		w.t.Fatal(err)
-	}
+	var u *contracts.ContractUpdater
+	cls, err, _ := vrCall(func() (err error) { u, err = w.cm.ReviseContract(id); return })
 	slot := w.nextSlot
 	w.nextSlot++
+	w.step(fmt.Sprintf("Open1 %d %d", slot, w.cN(id)), "ORes ("+cls+")")
+	w.em.Count("op:Open1:" + cls)
+	if err != nil {
+		if w.v1[id] != nil && w.confirmable(id) && !w.supers[id] && cls == "Err EInvalid" {
+			w.hit("revisable-contract-refuses-updater", fmt.Sprintf("contract %d at height %d, window start %d: %v", w.cN(id), w.chain.st.Index.Height, w.v1[id].window, err))
+		}
+		return -1
+	}
 	w.upd[slot] = &vrUpd{id: id, u: u, list: vrCopy(w.ref[id])}
-	w.step(fmt.Sprintf("Open1 %d %d", slot, w.cN(id)), "ORes (Ok tt)")
-	w.em.Count("op:Open1")
 	return slot
 }
 
 // act applies one updater action; the reference list follows only accepted ones.
 func (w *vrWorld) act(slot int, a contracts.SectorChange) bool {
 	x := w.upd[slot]
+	if x == nil { // the updater was refused (open1 returned -1): nothing to act on
+		return false
+	}
 	cls, err, _ := vrCall(func() error {
 		switch a.Action {
 		case contracts.SectorActionAppend:
@@ -770,6 +798,9 @@ func (w *vrWorld) act(slot int, a contracts.SectorChange) bool {
 // and Merkle root of the updater's list, the next revision number.  faultAt < 0: no fault.
 func (w *vrWorld) commit1(slot int, faultAt int) (ok bool, fired bool) {
 	x := w.upd[slot]
+	if x == nil {
+		return false, false
+	}
 	c := w.v1[x.id]
 	cur := x.u.SectorRoots()
 	next := w.newV1Rev(x.id, c.uc, c.cur.Revision.RevisionNumber+1+uint64(w.rng.Intn(3)), uint64(len(cur))*rhp2.SectorSize, x.u.MerkleRoot(), c.window)
@@ -795,17 +826,26 @@ func (w *vrWorld) commit1(slot int, faultAt int) (ok bool, fired bool) {
 		w.hit("commit-succeeds-despite-store-failure", fmt.Sprintf("contract %d, failing statement %d; %s", w.cN(x.id), seen-1, vrFault.stack))
 	}
 	if err == nil {
+		if !w.confirmable(x.id) {
+			w.lateAccepted("a commit", x.id)
+		}
 		c.cur = next
 		w.ref[x.id] = vrCopy(x.list)
 		w.accepted++
 	} else if d := vrSnapDiff(w, before, w.snapshot()); d != "" {
 		w.hit("failed-commit-changes-state", d)
 	}
+	if err != nil {
+		w.em.Count(fmt.Sprintf("op:Commit1:refused:confirmable=%v", w.confirmable(x.id)))
+	}
 	w.look(x.id, false)
 	return err == nil, fired
 }
 
 func (w *vrWorld) close1(slot int) {
+	if w.upd[slot] == nil {
+		return
+	}
 	w.upd[slot].u.Close()
 	delete(w.upd, slot)
 	w.step(fmt.Sprintf("Close1 %d", slot), "ORes (Ok tt)")
@@ -886,6 +926,9 @@ func (w *vrWorld) renew1(old types.FileContractID, bad vrRenewBad, faultAt int) 
 		return newID, false
 	}
 	w.accepted++
+	if !w.confirmable(old) {
+		w.lateAccepted("a renewal (clearing revision)", old)
+	}
 	nc := &vrC1{id: newID, uc: c.uc, cur: renewal, window: nws}
 	w.v1[newID] = nc
 	w.order1 = append(w.order1, newID)
